@@ -90,6 +90,7 @@ type Stats struct {
 	Points       int            `json:"choice_points"`
 	MaxEnabled   int            `json:"max_enabled"`
 	MaxOps       uint64         `json:"max_hooked_ops_per_execution"`
+	SplitPassRestarts int       `json:"w_restarts_in_split_pass,omitempty"`
 	MaxThreads   int            `json:"max_threads"`
 	Outcomes     int            `json:"distinct_outcomes"`
 	OutcomeHist  map[string]int `json:"-"`
@@ -172,12 +173,20 @@ func (e *Explorer) Explore() {
 	completed := -2
 	var lastDone *Stats
 	var lastViol []Violation
+	nshards := e.NShards
 	for {
 		e.Bound = bounds[bi]
+		// the discovery passes are not split: every shard runs them completely and therefore ends
+		// them with the same shared-object set W, which makes the executions above the split (and
+		// with them the numbering of the subtrees) identical in all shards of the final pass
+		e.NShards = nshards
+		if bi < len(bounds)-1 {
+			e.NShards = 1
+		}
 		e.seen = map[uint64]int{}
 		e.states = map[uint64]struct{}{}
 		e.outcomes = map[uint64]int{}
-		e.Stats = Stats{Scenario: e.Name, Bound: e.Bound, Restarts: e.Stats.Restarts, Note: e.Stats.Note, TotalRuns: e.Stats.TotalRuns, OutcomeHist: map[string]int{}}
+		e.Stats = Stats{Scenario: e.Name, Bound: e.Bound, Restarts: e.Stats.Restarts, SplitPassRestarts: e.Stats.SplitPassRestarts, Note: e.Stats.Note, TotalRuns: e.Stats.TotalRuns, OutcomeHist: map[string]int{}}
 		e.Violations = nil
 		e.sigSeen = map[string]int{}
 		e.cut = false
@@ -198,6 +207,11 @@ func (e *Explorer) Explore() {
 			continue
 		}
 		e.Stats.Restarts++
+		if bi == len(bounds)-1 && nshards > 1 {
+			// a new shared object in the split pass: this shard's W now differs from the others';
+			// the driver re-runs all shards of the unit from the merged W cache
+			e.Stats.SplitPassRestarts++
+		}
 		e.Stats.Note += fmt.Sprintf("restart@b%d/x%d ", e.Bound, e.Stats.Execs)
 		if e.Stats.Restarts > 50 {
 			e.HarnessErr = "too many W restarts"
@@ -257,6 +271,11 @@ func (e *Explorer) tryExplore() (ok bool) {
 	return true
 }
 
+func (e *Explorer) countStateOnly(key uint64, spent int) bool {
+	e.states[key] = struct{}{}
+	return false
+}
+
 func (e *Explorer) pruneFn(key uint64, spent int) bool {
 	e.states[key] = struct{}{}
 	if !e.Prune {
@@ -273,6 +292,11 @@ func (e *Explorer) pruneFn(key uint64, spent int) bool {
 	return false
 }
 
+// shardDepth: the search tree is split over the shards at this depth (the subtrees below the
+// second-level nodes are of far more even size than those below the first-level ones); the few
+// executions above it are run by every shard and judged by shard 0 only.
+const shardDepth = 1
+
 func (e *Explorer) explore(prefix []int, depth int) {
 	if e.cut || e.HarnessErr != "" {
 		return
@@ -282,6 +306,12 @@ func (e *Explorer) explore(prefix []int, depth int) {
 		return
 	}
 	cfg := vsched.Config{Prefix: prefix, Prune: e.pruneFn, W: e.w, EnvChoices: e.EnvChoices, YieldAfterRelease: e.NoConfirm || e.AllVisible, AllVisible: e.AllVisible, Watchdog: 120 * time.Second}
+	if e.NShards > 1 && depth <= shardDepth {
+		// the executions above the split are the same in every shard (so that all shards number
+		// the subtrees alike) and leave nothing in the prune table: a shard explores only its
+		// share of their subtrees, so having "seen" their states would prove nothing
+		cfg.Prune = e.countStateOnly
+	}
 	x := e.Run(cfg)
 	e.Stats.Execs++
 	e.Stats.TotalRuns++
@@ -319,7 +349,7 @@ func (e *Explorer) explore(prefix []int, depth int) {
 	if x.Res.Pruned {
 		e.Stats.Pruned++
 	} else {
-		mine := e.NShards <= 1 || depth > 0 || e.Shard == 0
+		mine := e.NShards <= 1 || depth > shardDepth || e.Shard == 0
 		if mine {
 			e.observe(x)
 		}
@@ -337,7 +367,7 @@ func (e *Explorer) explore(prefix []int, depth int) {
 				if e.Bound >= 0 && cost > e.Bound {
 					continue
 				}
-				if depth == 0 && e.NShards > 1 {
+				if depth == shardDepth && e.NShards > 1 {
 					e.topCount++
 					if e.topCount%e.NShards != e.Shard {
 						continue
